@@ -5,6 +5,7 @@ from .. import env
 from ..oracle import fwconst
 from ..simdev.transport import Fault
 from . import faultlib as fl
+from ..gen import der
 
 ID = "C04"
 LEVEL = "fault_enumeration"
@@ -65,10 +66,12 @@ def in_range(sw):
     return 0x69A0 <= sw <= 0x6BFF or sw == 0x6D00
 
 
-def run_cell(shape, plan):
+def run_cell(shape, plan, prep=None):
     """fresh stack, bring-up, arm the plan, run the request"""
     from ..stack import Stack
     dev = fl.make_device(shape)
+    if prep:
+        prep(dev)
     with Stack(dev, version_one=shape.v1) as s:
         s.initialize()
         if shape.post:
@@ -111,6 +114,31 @@ def run_shard(spec, acc):
             base_reply = reply
             if K == 0:
                 continue
+            # ---- success answers of every well-formed shape: signatures whose r / s
+            # are shorter than 32 bytes or carry the DER sign byte, total 8..72 bytes
+            if shape.command in ("sign", "signerHeartbeat", "uiHeartbeat") and \
+                    shape.baseline == 0 and si % spec["n"] == spec["shard"] % spec["n"]:
+                srng = random.Random(1000 + si)
+                for j in range(16):
+                    sig, rs = der.make_sig(srng, ["normal", "normal", "short", "min"][j % 4])
+
+                    def prep(dev, sig=sig):
+                        dev.signatures = iter([sig] * 4)
+                        for hb in (dev.hb, dev.uihb):
+                            if hb:
+                                hb["signature"] = sig
+                    r2, e2, _, _, _ = run_cell(shape, {}, prep)
+                    acc.count("success_answers_of_other_shapes")
+                    acc.evaluations += 1
+                    got = (r2 or {}).get("signature") or {}
+                    if e2 is not None or not r2 or r2.get("errorcode") != 0 or \
+                            (int(got.get("r", "0") or "0", 16), int(got.get("s", "0") or "0", 16)) \
+                            != (int(rs[0] or "0", 16), int(rs[1] or "0", 16)):
+                        acc.violation("device-success-not-code-0:%s:signature-of-%d-bytes" % (
+                            shape.command, len(sig)), {"reply": r2, "exc": repr(e2),
+                                                       "signature": sig.hex()},
+                            {"shape": shape.name, "v1": v1, "k": None, "fault": None,
+                             "sig": sig.hex()})
             # ---- the cells
             others = []
             gi = si + (100 if v1 else 0)
